@@ -170,9 +170,15 @@ def convert_case(ctx, d, rng, case, k, prop):
         got = sorted(x.name for x in out.iterdir())
         exp = sorted(target_name(f, label) for f in case['tgt'])
         extra_ok = {'spike_clusters.npy', 'whitening_mat_inv.npy'}      # created by the reload at the end
-        if sorted(set(got) - extra_ok) != sorted(set(exp) - extra_ok):
-            problems.append(('C13.target_files', 'target files %r; specification %r' % (
-                sorted(set(got) - set(exp) - extra_ok), sorted(set(exp) - set(got)))))
+        missing = sorted(set(exp) - set(got) - extra_ok)
+        extra = sorted(set(got) - set(exp) - extra_ok)
+        # every spikes.* / clusters.* / templates.* / channels.* file carries the label before its extension
+        unlabelled = sorted(x for x in got if x.split('.')[0] in ('spikes', 'clusters', 'templates', 'channels')
+                            and label and ('.%s.' % label) not in x)
+        if missing or unlabelled:
+            problems.append(('C13.target_files', 'target files missing %r, without the label %r' % (missing, unlabelled)))
+        elif extra:
+            ctx.note('target_files', 'the target directory holds files the pipeline model does not know: %r' % extra)
         # ---- reload equality (C13)
         if m2 is None:
             problems.append(('C13.reload', 'no model returned'))
